@@ -456,6 +456,23 @@ fn ledger_mirror(c: &Chain, cx: &mut Ctx, label: &str, res: &Applied, before: &S
             op = Some(format!("withdraw {} {} {}", arg("amount").unwrap(), vested.atto(), if b.has_early_terminations { 1 } else { 0 }));
         } else if target == Some(i) && kind == "repay_debt" {
             op = Some(format!("repay {} {}", arg("value").unwrap(), vested.atto()));
+        } else if target == Some(i) && kind == "terminate" {
+            // TerminateSectors with inline early-termination processing: the sectors whose pledge was
+            // released in this call, the fee = debt increase + what was burnt
+            let processed: Vec<u64> = b.pledges.keys().filter(|k| !a.pledges.contains_key(k)).cloned().collect();
+            let penalty = (&a.debt - &b.debt) + &burnt;
+            op = Some(format!("terminate {} {} {}", list_s(&processed), penalty.atto(), vested.atto()));
+        } else if target == Some(i) && kind == "report_consensus_fault" {
+            // penalty and reporter reward as the formulas produced them (C15 models the formulas);
+            // whether the transfer to the reporter went through is read from the trace
+            let to_reporter: Vec<_> = all.iter().filter(|t| t.from == mid && t.method == 0 && t.to != BURNT_FUNDS_ACTOR_ADDR).collect();
+            let send_ok = to_reporter.iter().all(|t| t.exit_code.is_success());
+            let paid: TokenAmount = to_reporter.iter().filter(|t| t.exit_code.is_success()).map(|t| t.value.clone()).sum();
+            let penalty = (&a.debt - &b.debt) + &burnt + &paid;
+            let slasher = to_reporter.first().map(|t| t.value.clone()).unwrap_or_default();
+            // the reward is min(burn, slasher reward): when it was clamped the attempted value is the
+            // clamp itself, which the model reproduces from any slasher reward ≥ it
+            op = Some(format!("consensusfault {} {} {} {}", penalty.atto(), slasher.atto(), vested.atto(), if send_ok { 1 } else { 0 }));
         } else if kind == "tick" {
             let cb: Vec<_> = all.iter().filter(|t| t.to == id && t.method == fil_actor_miner::Method::OnDeferredCronEvent as u64).collect();
             if cb.is_empty() { continue; }
@@ -483,7 +500,7 @@ fn ledger_mirror(c: &Chain, cx: &mut Ctx, label: &str, res: &Applied, before: &S
             cx.ledger_ops += 1;
             cx.rep.branch(&format!("ledger:{}", op.split(' ').next().unwrap()));
             // expected from the real run
-            let paid: TokenAmount = if kind == "withdraw" { all.iter().filter(|t| t.from == mid && t.method == 0 && t.to != BURNT_FUNDS_ACTOR_ADDR && t.exit_code.is_success()).map(|t| t.value.clone()).sum() } else { TokenAmount::zero() };
+            let paid: TokenAmount = if kind == "withdraw" || kind == "report_consensus_fault" { all.iter().filter(|t| t.from == mid && t.method == 0 && t.to != BURNT_FUNDS_ACTOR_ADDR && t.exit_code.is_success()).map(|t| t.value.clone()).sum() } else { TokenAmount::zero() };
             // this miner's share of the network-total change: all of it unless another miner's callback ran in the same tick
             let mut parts = ans.split(" | ");
             let head = parts.next().unwrap_or("");
